@@ -844,8 +844,11 @@ func main() {
 		os.Setenv("VERIF_SEED", fmt.Sprint(rp.Seed))
 		shards = 1
 	}
-	h.w = cv.NewWriter(*out, "C02", header, "case", "mismatches", shards)
 	thorough := *tier == "thorough"
+	if thorough && *replay == "" {
+		shards = 96 // ~300 cases per file: a coqc process per file stays small
+	}
+	h.w = cv.NewWriter(*out, "C02", header, "case", "mismatches", shards)
 	r := cv.NewRand(2)
 
 	// fixed corpus first (independent of the seed where possible), then the random streams
@@ -855,7 +858,7 @@ func main() {
 	h.zeroLength(r)
 	h.trees(r)
 	if thorough {
-		h.structured(r, 12000, 3)
+		h.structured(r, 8000, 3)
 		h.arity(r, 1500)
 		h.fixedPoint(r, 40)
 	} else {
